@@ -143,6 +143,16 @@ pub trait Property: Sync + Send + 'static {
     fn max_shrink_iters(&self) -> u32 {
         4096
     }
+    /// isolated checks only: seconds a single case may take before the worker is killed
+    fn case_timeout_s(&self) -> u64 {
+        120
+    }
+    /// the property itself claims termination ("never fails to terminate", "returns a value
+    /// or an error"): a case that does not finish twice in a row (second try with twice the
+    /// time, in a fresh worker) is then a violation; otherwise it is inconclusive
+    fn claims_termination(&self) -> bool {
+        false
+    }
 }
 
 // ---------------------------------------------------------------------------------------
@@ -383,17 +393,36 @@ impl WorkerHandle {
         })
     }
 
-    fn run(&mut self, json: &str) -> Option<Outcome> {
+    /// Err(true) = timed out, Err(false) = worker died
+    fn run(&mut self, json: &str, timeout_s: u64) -> Result<Outcome, bool> {
+        use std::os::fd::AsRawFd;
         if writeln!(self.stdin, "{json}").is_err() || self.stdin.flush().is_err() {
-            return None;
+            return Err(false);
+        }
+        // wait for the answer line with a deadline (the reply is written in one piece)
+        if self.stdout.buffer().is_empty() {
+            let fd = self.stdout.get_ref().as_raw_fd();
+            let deadline = Instant::now() + std::time::Duration::from_secs(timeout_s);
+            loop {
+                let left = deadline.saturating_duration_since(Instant::now());
+                if left.is_zero() {
+                    return Err(true);
+                }
+                let mut pfd = libc::pollfd { fd, events: libc::POLLIN, revents: 0 };
+                let ms = left.as_millis().min(1000) as i32;
+                let r = unsafe { libc::poll(&mut pfd, 1, ms) };
+                if r > 0 {
+                    break;
+                }
+            }
         }
         let mut line = String::new();
         match self.stdout.read_line(&mut line) {
-            Ok(0) | Err(_) => None,
+            Ok(0) | Err(_) => Err(false),
             Ok(_) => match serde_json::from_str::<WorkerReply>(&line) {
-                Ok(WorkerReply::Ok(p)) => Some(Ok(p)),
-                Ok(WorkerReply::Fail(f)) => Some(Err(f)),
-                Err(_) => None,
+                Ok(WorkerReply::Ok(p)) => Ok(Ok(p)),
+                Ok(WorkerReply::Fail(f)) => Ok(Err(f)),
+                Err(_) => Err(false),
             },
         }
     }
@@ -427,7 +456,8 @@ impl<'a, P: Property> Executor<'a, P> {
             return guard(|| self.prop.check(case));
         }
         let json = serde_json::to_string(case).expect("case serialises");
-        for _attempt in 0..2 {
+        let mut timeout = self.prop.case_timeout_s();
+        for attempt in 0..2 {
             if self.worker.is_none() {
                 match WorkerHandle::spawn(self.prop.id()) {
                     Ok(w) => self.worker = Some(w),
@@ -438,9 +468,9 @@ impl<'a, P: Property> Executor<'a, P> {
                 }
             }
             let w = self.worker.as_mut().unwrap();
-            match w.run(&json) {
-                Some(outcome) => return outcome,
-                None => {
+            match w.run(&json, timeout) {
+                Ok(outcome) => return outcome,
+                Err(false) => {
                     // worker died while executing this case
                     let status = w
                         .child
@@ -452,6 +482,26 @@ impl<'a, P: Property> Executor<'a, P> {
                         "abort/worker-died",
                         format!("worker process died while executing the case ({status})"),
                     ));
+                }
+                Err(true) => {
+                    // no answer in time: kill the worker, try once more with twice the time
+                    self.worker = None;
+                    if attempt == 0 {
+                        timeout *= 2;
+                        continue;
+                    }
+                    return Err(if self.prop.claims_termination() {
+                        Fail::new(
+                            "terminate/case-did-not-finish",
+                            format!(
+                                "the case did not finish within {} s and, re-run in a fresh process, not within {} s either (other cases take milliseconds)",
+                                timeout / 2,
+                                timeout
+                            ),
+                        )
+                    } else {
+                        Fail::new("inconclusive/case-timeout", format!("case did not finish within {timeout} s twice"))
+                    });
                 }
             }
         }
